@@ -282,12 +282,17 @@ Definition dispatch_calendar (name : string) (a : list tok) : option (list tok *
   | "to_greg"%string, [TZ c; TZ n; TZ t] =>
       let t := norm_ts t in
       Some (let '(y, m, d, h, mi, s, ns) := compute_gregorian (from_parts c n) (ts_of_Z t) in
-            [TZ y; TZ m; TZ d; TZ h; TZ mi; TZ s; TZ ns],
+            [TZ y; TZ m; TZ d; TZ h; TZ mi; TZ s; TZ ns] ++
+            (* ... and the fields build the identical epoch again *)
+            (if (Z.abs (y - 1900) <=? 3000000) then      (* the range the closed-form day count is proved (and fast) for *)
+               match maybe_from_gregorian_fast y m d h mi s ns (ts_of_Z t) with inl e => TZ 1 :: tepoch e | inr _ => [TZ 0] end
+             else nospec),
             let w := pval c n + spec_gregorian_zero t in
             if in_rangev w then
               let '(y, m, d) := civil_of_days (w / NS_PER_DAY) in
               let r := w mod NS_PER_DAY in
-              [TZ y; TZ m; TZ d; TZ (r / (3600 * NS_PER_S)); TZ (r / (60 * NS_PER_S) mod 60); TZ (r / NS_PER_S mod 60); TZ (r mod NS_PER_S)]
+              [TZ y; TZ m; TZ d; TZ (r / (3600 * NS_PER_S)); TZ (r / (60 * NS_PER_S) mod 60); TZ (r / NS_PER_S mod 60); TZ (r mod NS_PER_S)] ++
+              (if Z.abs (y - 1900) <=? 3000000 then TZ 1 :: sdur (pval c n) ++ [TZ t] else nospec)
             else nospec)
   | "doy_int"%string, [TZ c; TZ n; TZ t] =>
       let t := norm_ts t in
